@@ -27,7 +27,10 @@ RULE = ('A case is a batch of graph-lab hypernym digraphs (as in C13: edge masks
         'all graphs. Non-trivial graph: a pair with >=2 lowest common hypernyms, an a/s mix or '
         'several part-of-speech classes; the class histogram counts graphs, not batches. Sub '
         'split-lexicons: graphs of 2-6 nodes divided between a lexicon and an extension of it, '
-        'queried through a Wordnet over both, given weights, same oracle.')
+        'queried through a Wordnet over both, given weights, same oracle. Sub interlingual: a '
+        'sparse lexicon expanded over others (C13\'s generator); the ILI-mapped reference graph '
+        '(placeholders as nodes) is fed to the same oracle for path/wup/lch over all pairs of real '
+        'synsets.')
 ASSUMPTIONS = [
     'formula values are asserted where C13 defines their ingredients: path/lch on every graph '
     'without simulate_root and on DAGs with it; wup/res/jcn/lin on DAGs',
@@ -477,6 +480,112 @@ def _two_lcs(tier):
                       (1, 6, 8, 10, 12, 9))   # many lexicons/rowids: varied Synset hashes
 
 
+# ---------------------------------------------------------------------------
+# interlingual graphs: a sparse lexicon whose hypernymy comes from expand lexicons; the
+# concepts it lacks are placeholder nodes of the graph (never arguments of a metric here)
+
+class _MappedLab:
+    """Looks like graphs.Lab for one graph: the ILI-mapped hypernym graph of a C12-style case."""
+
+    def __init__(self, case):
+        from . import c11, c12
+        from .. import observe
+        from ..observe import key_of
+        self.case = case
+        ref = c12._setup(case)
+        view = c12._view(ref, case)
+        names = ('hypernym', 'instance_hypernym')
+        real = [r for r in view.synsets()]
+        keys = [r.key for r in real]
+        succ = {}
+        todo = [(r.key, r) for r in real]
+        while todo:
+            k, node = todo.pop()
+            if k in succ:
+                continue
+            tg = c12._related(view, node, names, real[0].owner)
+            succ[k] = [c12._kstr(t) for t in tg]
+            for t in tg:
+                ks = c12._kstr(t)
+                if ks not in succ:
+                    todo.append((ks, c12._node_of(view, t)))
+        for k in succ:
+            if k not in keys:
+                keys.append(k)
+        self.keys = keys
+        self.n_real = len(real)
+        idx = {k: i for i, k in enumerate(keys)}
+        self.edges = sorted({(idx[k], idx[t]) for k, ts in succ.items() for t in ts})
+        self.w, _ = observe.make_wordnet(case['selection'], None, case['expand'])
+        # Synset objects by node: real ones by id, placeholders by walking the API
+        objs = {key_of(x): x for x in self.w.synsets()}
+        found = {k: objs[k] for k in keys[:self.n_real]}
+        frontier = list(found.values())
+        while frontier:
+            x = frontier.pop()
+            for t in x.get_related(*names):
+                ks = c12._kstr(key_of(t))
+                if ks in idx and ks not in found:
+                    found[ks] = t
+                    frontier.append(t)
+        self.objs = [found.get(k) for k in keys]
+
+    def desc(self, D):
+        n = len(self.keys)
+        return {'n': n, 'mask': G.mask_of(n, self.edges), 'pos': 'n' * n, 'recip': False, 'D': D,
+                'ics': [], 'pairs': [[a, b] for a in range(self.n_real)
+                                     for b in range(self.n_real)]}
+
+    def wordnet(self, i):
+        return self.w
+
+    def synsets(self, i, w=None):
+        return self.objs
+
+    def ids(self, i):
+        return list(self.keys)
+
+
+@st.composite
+def _il_cases(draw):
+    from . import c13
+    case = draw(c13._il_drawn())
+    case['selection'] = 'L:1'
+    case['D'] = draw(st.integers(1, 12))
+    return case
+
+
+def _il_classify(case):
+    from . import c11, c12
+    from ..refdb import RefDB
+    ref = RefDB()
+    for spec in case['order']:
+        ref.add_resource({'lmf_version': '1.1', 'lexicons': [case['lexicons'][spec]]})
+    view = c12._view(ref, case)
+    tags = set()
+    anc = {r.key: set(c11._x_reach(view, r, ('hypernym', 'instance_hypernym'))) | {r.key}
+           for r in view.synsets()}
+    rs = list(view.synsets())
+    for a in rs:
+        for b in rs:
+            if a is not b:
+                ph = [k for k in anc[a.key] & anc[b.key] if k.startswith('*INFERRED*')]
+                if ph:
+                    tags.add('pair-below-placeholder')
+                if len(ph) >= 2:
+                    tags.add('pair-below-2-placeholders')
+    return bool(tags), sorted(tags)
+
+
+def _il_oracle(case):
+    out = _Out()
+    lab = _MappedLab(case)
+    if any(o is None for o in lab.objs[:lab.n_real]):
+        raise env.HarnessError('a selected synset was not listed by the Wordnet')
+    _check_graph(lab, 0, lab.desc(case['D']), out, 'taxonomy')
+    return out.discs
+
+
 @st.composite
 def _split_decorated(draw):
     """A graph divided between a lexicon and an extension of it (see C13), given weights."""
@@ -492,6 +601,9 @@ def _split(tier):
 
 
 SUBS = [
+    Sub('interlingual', _il_oracle, _il_classify, strategy=lambda tier: _il_cases(),
+        budget={'quick': 50, 'thorough': 1000}, sample=lambda c: c, case_timeout=300,
+        require_tags=('pair-below-2-placeholders',)),
     Sub('split-lexicons', oracle, _classify, strategy=_split,
         budget={'quick': 20, 'thorough': 200}, sample=_sample, purge_every=8, case_timeout=900),
     Sub('enum-n<=3', oracle, _classify, enumerate=_enum_small,
